@@ -185,14 +185,28 @@ def py_inflate(comp, size):
         return None
 
 
+def py_inflate_any(comp):
+    """zlib stream -> (bytes, status); status 'ok' (stream complete; trailing bytes ignored like uncompress() does),
+    'incomplete' or 'error'; the output is capped at 64 MiB"""
+    try:
+        d = zlib.decompressobj()
+        out = d.decompress(comp, 1 << 26)
+        if not d.eof:
+            return out, "incomplete"
+        return out, "ok"
+    except zlib.error:
+        return None, "error"
+
+
 def py_natural_decode(text):
-    """(declared size, format char, data or None) read by Python alone; None if there is no 9-byte header"""
+    """(declared size, format char, inflated bytes or None, status) read by Python alone; None if there is no
+    9-byte header in the text"""
     p = py_payload(text)
     if p is None or len(p) < 9:
         return None
     size = int.from_bytes(p[:8], "big")
-    data = py_inflate(p[9:], size) if size < (1 << 31) else None
-    return size, p[8], data
+    out, status = py_inflate_any(p[9:])
+    return size, p[8], out, status
 
 
 def check_text_format(text, data, lb):
